@@ -73,6 +73,7 @@ LUA_POOL = {
     'l4.lua': b'p=1\n\n#include l0.lua\n-->8\nq=2',     # looks like a directive / a tab line; not expanded, not split
     'l5.lua': b'-- \x80\x99\xff\ne=5\n',
     'l6.lua': b'f=6\n\n',
+    'l7.lua': b'a=1  \n\tb=2\t\n   \n  c=3',                 # leading / trailing blanks, a blank-only line
     'sub/l0.lua': b'sx=1\n',
     'sub/l1.lua': b'sa=sb',
     'sub/deep/l0.lua': b'dx=1\ndy=2',
@@ -90,10 +91,11 @@ CART_CODES = {
     't7': b'w1=1\n -->8\nw2=2\n--->8\nw3=3\n',           # near-miss separators
     't8': b's=[[\n-->8\n]]\nt=2\n-->8\nu=3\n',            # a long string opened in tab 0 and closed in tab 1
     't9': b'g=1 --[[ c\n-->8\nd ]]\nv=1',                   # a long comment across a tab boundary, unterminated end
+    't11': b'  i=1  \n-->8\n\tj=2\t\n\n',                  # blanks around code, empty last line
     't10': b'-->8\n'.join(b'tab%d=%d\n' % (i, i) for i in range(12)),   # twelve tabs: selectors with two digits, 8 and 9
 }
 CART_DIRS = {'t0': ['', 'sub/', 'sub/deep/'], 't1': ['', 'sub/'], 't2': [''], 't3': [''], 't4': [''], 't5': [''],
-             't6': [''], 't7': [''], 't8': ['', 'sub/'], 't9': [''], 't10': ['']}
+             't6': [''], 't7': [''], 't8': ['', 'sub/'], 't9': [''], 't10': [''], 't11': ['']}
 MISSING = ['nope.lua', 'nope.p8', 'nope.p8.png', 'sub/nope.lua', 'l0.p8', 'dir.lua']     # dir.lua is a directory
 
 
@@ -188,7 +190,8 @@ def view_strings(S, host_path, host_bytes):
 # ---------------------------------------------------------------- generators
 RE_TOKENS = [' ', '\t', '#include', 'a', '.', '.p8', '.p8.png', '.lua', ':', '1', 'b/']
 PLAIN = ['x=1', 'y = "s"', '-- note', '', '  z=3', 'function f() end', '#includex.lua', '-- #include l0.lua',
-         'print("#include l0.lua")', 'w=#t', '-->8', 'local q = {1,2}']
+         'print("#include l0.lua")', 'w=#t', '-->8', 'local q = {1,2}', '#INCLUDE l0.lua', '#include',
+         '# include l0.lua', 'x=1 #include l0.lua', 'v=2  ', '\tu=3']
 
 
 def re_strings(n):
@@ -310,6 +313,7 @@ def corpus_cases():
     yield {'kind': 'load', 'host': ['#include t9.p8:0', 'z=1'], 'names': ['t9.p8'], 'mode': 'abs'}
     yield {'kind': 'load', 'host': ['#include t10.p8:8', '#include t10.p8.png:10', '#include t10.p8:011', '#include t10.p8:12'],
            'names': ['t10.p8', 't10.p8.png'], 'mode': 'abs'}
+    yield {'kind': 'load', 'host': ['#include ', 'x=1', '#include l0.lua:2', '#include a.txt', '#include l0.lua x'], 'names': ['l0.lua'], 'mode': 'abs'}
     yield {'kind': 'nofile', 'host': ['x=1', '#include l0.lua']}
     yield {'kind': 'nofile', 'host': ['x=1', 'y=2']}
 
@@ -447,7 +451,8 @@ def monitor_requests(case, obs):
         return []
     if case['kind'] in ('tab', 'flines'):
         return []
-    host = b''.join(obs['lualines'])
+    # the cart's code as the harness wrote it (ASCII), not as the implementation's reader returned it
+    host = ''.join(x + '\n' for x in case['host']).encode('latin-1')
     fl = _mon_files(obs)
     r = ['holds %s %s %s' % (h(host), fl, h(b''.join(obs['pi'])) if 'pi' in obs else 'ERR')]
     # the loaded cart: when the splice itself succeeded (judged by the request above) but the spliced text is
@@ -491,10 +496,13 @@ def signature(case, obs):
     if 'pi_err' in obs:
         return 'C20/unexpected-error/' + obs['pi_err']
     multi = [n for n, k, t in obs.get('offered', []) if k and (b'[[' in t)]
-    if multi and any(':' in x for x in case['host']):
+    if multi and any(('#include' in x and n in x and ':' in x) for x in case['host'] for n in multi):
         return 'C20/tab/separator-inside-multiline-token'
-    if unterminated:
-        return 'C20/glue/no-final-newline'
+    out_lines = (b''.join(obs['pi']) if 'pi' in obs else obs.get('load', b'')).split(b'\n')
+    for n, k, t in obs.get('offered', []):
+        last = t.split(b'\n')[-1] if t and not t.endswith(b'\n') else b''
+        if last and any(ln.startswith(last) and len(ln) > len(last) and ln not in t.split(b'\n') for ln in out_lines):
+            return 'C20/glue/no-final-newline'
     return 'C20/splice/other'
 
 
